@@ -296,3 +296,15 @@ Proof.
   - intros [H|[]]; discriminate H.
   - repeat constructor.
 Qed.
+
+(* the upper bound at any position of any history: what run i+1 hands to remove() was listed by run i, is not listed
+   now, and - with roots - is absolute and lies under a root by whole components, whatever the spelling *)
+Lemma may_delete_history runs0 prior e0 r0 e1 r1 rest p :
+  In p (nth (S (length runs0)) (stale_history prior (runs0 ++ (e0, r0) :: (e1, r1) :: rest)) []) ->
+  In p e0 /\ ~ In p e1 /\
+  (r1 <> [] -> absolute p = true /\ exists r, In r r1 /\ comp_prefix (comps r) (comps p) = true).
+Proof.
+  rewrite stale_history_step. intros H. pose proof H as H0. apply to_delete_spec in H0.
+  destruct H0 as [Hp [Hne _]]. split; [exact Hp|]. split; [exact Hne|].
+  intros Hr. eapply nothing_outside_roots; eassumption.
+Qed.
